@@ -1,6 +1,7 @@
 package main
 
 import (
+	"runtime"
 	"bufio"
 	"bytes"
 	"encoding/hex"
@@ -340,6 +341,7 @@ func runCases(ctx *Ctx, cases []Case, par int) {
 		}(i, od)
 	}
 	wg.Wait()
+	allocAudit(ctx, cases, ops, impl)
 	// 2. driver lines
 	var lines []string
 	type ref struct{ idx int; kind byte }
@@ -437,6 +439,84 @@ func runCases(ctx *Ctx, cases []Case, par int) {
 			}
 		}
 	}
+}
+
+// ---- allocation audit ("without allocating memory out of proportion to the input") ---------------------------
+//
+// Run after the parallel pass, on one goroutine with nothing else going on, over the cases that carry NoPanic (the
+// decoding campaign): the bytes allocated while an op runs (runtime.MemStats.TotalAlloc: cumulative, so garbage collection
+// does not hide anything) must stay within allocBase + allocPerByte x (bytes of input).  The harness's own work per op
+// (hex decoding, formatting the result) is linear in the input with a small factor and is inside the allowance.
+// Measured per chunk; a chunk over its summed allowance is bisected down to the single case.
+const (
+	allocBase    = 256 << 10
+	allocPerByte = 1024
+)
+
+func caseInputBytes(c Case) uint64 {
+	n := 0
+	for _, a := range c.MArgs {
+		n += len(a)
+	}
+	return uint64(n/2 + 1)
+}
+
+func allocAudit(ctx *Ctx, cases []Case, ops map[string]OpDef, impl []implResult) {
+	var ids []int
+	for i, c := range cases {
+		if c.NoPanic && impl[i].out != "panic" && impl[i].out != "timeout" && impl[i].out != "harness-error" {
+			if _, ok := ops[c.Op]; ok {
+				ids = append(ids, i)
+			}
+		}
+	}
+	if len(ids) == 0 {
+		return
+	}
+	var ms runtime.MemStats
+	measure := func(sub []int) (uint64, uint64) {
+		var allow uint64
+		runtime.ReadMemStats(&ms)
+		before := ms.TotalAlloc
+		for _, i := range sub {
+			allow += allocBase + allocPerByte*caseInputBytes(cases[i])
+			runImpl(ops[cases[i].Op].Impl, cases[i].MArgs, 20*time.Second)
+		}
+		runtime.ReadMemStats(&ms)
+		return ms.TotalAlloc - before, allow
+	}
+	audited, worst := 0, 0.0
+	var hunt func(sub []int)
+	hunt = func(sub []int) {
+		got, allow := measure(sub)
+		if r := float64(got) / float64(allow); r > worst {
+			worst = r
+		}
+		if got <= allow {
+			return
+		}
+		if len(sub) == 1 {
+			c := cases[sub[0]]
+			ctx.AddMismatch(Mismatch{Kind: "spec", Case: c, Spec: "*", Size: caseSize(c),
+				Impl: fmt.Sprintf("allocated %d bytes for %d bytes of input (allowance %d + %d per input byte)", got, caseInputBytes(c), allocBase, allocPerByte)})
+			return
+		}
+		hunt(sub[:len(sub)/2])
+		hunt(sub[len(sub)/2:])
+	}
+	const chunk = 64
+	for lo := 0; lo < len(ids); lo += chunk {
+		hi := lo + chunk
+		if hi > len(ids) {
+			hi = len(ids)
+		}
+		hunt(ids[lo:hi])
+		audited += hi - lo
+	}
+	if ctx.Res.Extra == nil {
+		ctx.Res.Extra = map[string]any{}
+	}
+	ctx.Res.Extra["alloc_audit"] = map[string]any{"cases": audited, "allowance": fmt.Sprintf("%d + %d x input bytes", allocBase, allocPerByte), "largest_used_fraction_of_a_chunks_allowance": worst}
 }
 
 func trunc(a []string) []string {
